@@ -17,6 +17,16 @@ PENDING = 'check not built yet in this session; see DESIGN.md section 5 for the 
 NOT_APPLICABLE = {('C%02d' % i): PENDING for i in range(1, 21)}
 
 CHECKS = {
+    'C18': {
+        'engine': 'valnum + obligations',
+        'technique': 'who-may-call on eigendecomposition routines (eigh for spectral sums), def-use of eigenvector selection, slot/power constant propagation in findwalks, AST templates for the PageRank system, value-numbered comparison of the first-passage-time formula',
+        'text': 'Necessary structural conditions: subgraph centrality sums v_ik^2 exp(lambda_k) over an orthonormal (eigh) basis of the input; the eigenvector '
+                'returned is |column argmax(eigenvalues)| of one decomposition; findwalks stores A^q in slot q, each slot once; PageRank uses column sums with '
+                'zero degrees replaced before inversion, I - d A D^-1, (1-d) f/sum f, and normalises; mean first passage time is (diag(Z) - Z)/W with '
+                'Z = inv(I - P + W); diffusion efficiency is its reciprocal, diagonal zeroed, divided by n^2 - n.',
+        'note': 'The validity of the fundamental-matrix formula, conditioning, the degenerate stationary eigenvalue and the eigenvector for a repeated top '
+                'eigenvalue are not decided.',
+    },
     'C20': {
         'engine': 'obligations + const/dtype absint',
         'technique': 'AST patterns over candidate-mask / permutation-prefix construction, constant propagation through the ring-lattice band counter, dtype-kind abstract interpretation of index arrays, symbolic cell/edge-table interpretation of the stub-matching repair block',
